@@ -474,6 +474,23 @@ func literalPaths() []Path {
 	return out
 }
 
+// nestedFilterPaths: a filter inside a filter operand (operand parsing nests; `$` inside refers to the document).
+func nestedFilterPaths() []Path {
+	var out []Path
+	a := st(".a", "(name a)", "name", false)
+	for _, e := range []Expr{
+		{Text: "@.a[?(@.b)]", Ast: "(exists (cur (name a) (filter (exists (cur (name b))))))"},
+		{Text: "@[?(@.a)]", Ast: "(exists (cur (filter (exists (cur (name a))))))"},
+		{Text: "@[?(@ == $.b)]", Ast: "(exists (cur (filter (cmp == (cur) (root (name b))))))", RootOp: true},
+		{Text: "@[?(@.a == 7.5e1)]", Ast: "(exists (cur (filter (cmp == (cur (name a)) (numh lit)))))", Holes: "7.5e1=lit:f"},
+		{Text: "@.a[?(@[?(@.a)])]", Ast: "(exists (cur (name a) (filter (exists (cur (filter (exists (cur (name a)))))))))"},
+		{Text: "$[?(@.a)] && @.b", Ast: "(and (exists (root (filter (exists (cur (name a)))))) (exists (cur (name b))))", RootOp: true},
+	} {
+		out = append(out, mkPath(filterStep(e)), mkPath(filterStep(e), a), mkPath(a, filterStep(e)))
+	}
+	return out
+}
+
 // widePaths produce more than 16 results from small documents (result buffers grow and are reallocated).
 func widePaths() []Path {
 	rep := func(s string, n int) string { return strings.TrimSuffix(strings.Repeat(s+",", n), ",") }
